@@ -91,12 +91,15 @@ func (o *oracle) checkOutcome(in *Instance, s *Submission) {
 	if s.Err != nil && errors.Is(s.Err, ctlog.VerifErrEvicted) {
 		w.sim.Probe("evict.outcome")
 		o.evictions++
-		if !s.Low {
-			o.v("C17", "evicted-high-priority", "high-priority sub %d was evicted", s.ID)
+		if s.Source == "sequencer" {
+			// (a duplicate that joined the evicted entry's waiter shares its fate)
+			if !s.Low {
+				o.v("C17", "evicted-high-priority", "high-priority sub %d was evicted", s.ID)
+			}
+			o.w.smu.Lock()
+			o.admitted[s.Item.Key]--
+			o.w.smu.Unlock()
 		}
-		o.w.smu.Lock()
-		o.admitted[s.Item.Key]--
-		o.w.smu.Unlock()
 	}
 	if s.HTTP {
 		switch {
